@@ -653,6 +653,8 @@ class Interp:
                 raise Unsupported("attribute " + e.attr)
             if base is itertools.chain and e.attr == "from_iterable":
                 return StubCall(lambda xs: [y for x in self.iterate(xs) for y in self.iterate(x)])
+            if base is dict and e.attr == "fromkeys":
+                return StubCall(lambda keys, value=None: {k_: value for k_ in self.iterate(keys)})
             if isinstance(base, PURE_TYPES):
                 return getattr(base, e.attr)
             if isinstance(base, Stub):
